@@ -88,6 +88,7 @@ type GenOpts struct {
 	Selfs              bool
 	Faults             bool
 	Lookups            bool
+	Twins              bool // a second instance of an existing node type (the twin carries a custom name)
 }
 
 var DefaultOpts = GenOpts{MinNodes: 2, MaxNodes: zoo.K, Variants: "NLP", Aliases: true}
@@ -132,6 +133,17 @@ func Gen(t *rapid.T, o GenOpts) *Scenario {
 			}
 		}
 		s.Nodes = append(s.Nodes, ns)
+	}
+	if o.Twins && rapid.IntRange(0, 2).Draw(t, "twins") == 0 {
+		k := rapid.IntRange(1, 2).Draw(t, "ntwins")
+		for j := 0; j < k; j++ {
+			src := s.Nodes[rapid.IntRange(0, n-1).Draw(t, "twinof")]
+			tw := src
+			tw.Alias = fmt.Sprintf("%s%d", rapid.SampledFrom([]string{"tw", "zz-tw", "0tw"}).Draw(t, "twname"), j)
+			tw.Mask = rapid.IntRange(0, 63).Draw(t, "twmask") & present
+			tw.Lookups = nil
+			s.Nodes = append(s.Nodes, tw)
+		}
 	}
 	// aliases must be unique (duplicate registration is C07's subject)
 	seen := map[string]bool{}
@@ -281,7 +293,7 @@ func (in *Instance) Run(extraOps ...app.SettingOption) {
 
 // Comp returns the model component of scenario id.
 func (in *Instance) Comp(id int) *model.Comp {
-	return in.G.ByPtr[reflect.ValueOf(in.Comps[id]).Pointer()]
+	return in.G.Find(in.Comps[id])
 }
 
 // ---------------------------------------------------------------------------
@@ -299,7 +311,7 @@ func (s Seen) TargetName(g *model.Graph) string {
 	case s.Comp != nil:
 		return s.Comp.Name
 	case s.Wrapper != nil:
-		if c := g.ByPtr[reflect.ValueOf(s.Wrapper.Target).Pointer()]; c != nil {
+		if c := g.Find(s.Wrapper.Target); c != nil {
 			return c.Name
 		}
 	}
@@ -332,7 +344,7 @@ func identify(g *model.Graph, v reflect.Value) (Seen, bool) {
 	if w, ok := v.Interface().(*zoo.W); ok {
 		return Seen{Wrapper: w, Raw: w}, true
 	}
-	if c := g.ByPtr[v.Pointer()]; c != nil && c.Typ == v.Type() {
+	if c := g.Find(v.Interface()); c != nil {
 		return Seen{Comp: c, Raw: v.Interface()}, true
 	}
 	return Seen{Raw: v.Interface()}, true
@@ -424,7 +436,9 @@ type permReg struct {
 	ord *orderer
 }
 
-func (r *permReg) GetSingletonNames() []string { return r.ord.names(r.SingletonRegistry.GetSingletonNames()) }
+func (r *permReg) GetSingletonNames() []string {
+	return r.ord.names(r.SingletonRegistry.GetSingletonNames())
+}
 
 // ---------------------------------------------------------------------------
 // call tracer around the real SingletonComponentRegistry
